@@ -13,6 +13,7 @@ import (
 	"github.com/tikv/pd/pkg/tempurl"
 	"github.com/tikv/pd/pkg/typeutil"
 	"github.com/tikv/pd/server"
+	"github.com/tikv/pd/server/api"
 	"github.com/tikv/pd/server/config"
 	"go.etcd.io/etcd/embed"
 
@@ -81,10 +82,17 @@ func MultiConfigs(n int) ([]*config.Config, error) {
 	return cfgs, nil
 }
 
+// WithAPI makes servers started afterwards register the HTTP API (/pd/api/v1).
+var WithAPI bool
+
 // StartCfg starts a server from cfg (does not wait for leadership).
 func StartCfg(cfg *config.Config) (*PD, error) {
 	ctx, cancel := context.WithCancel(context.Background())
-	s, err := server.CreateServer(ctx, cfg)
+	var builders []server.HandlerBuilder
+	if WithAPI {
+		builders = append(builders, api.NewHandler)
+	}
+	s, err := server.CreateServer(ctx, cfg, builders...)
 	if err != nil {
 		cancel()
 		return nil, err
